@@ -27,6 +27,7 @@ import (
 )
 
 var yieldMu sync.Mutex
+var concCount int
 
 // readVersion: a digest of everything a reader can ask of version v.
 func (s *session) readVersion(v int64, keys [][]byte) (res map[string]string) {
@@ -109,12 +110,28 @@ func (s *session) concOp(args []string, keys [][]byte) string {
 	if args[0] == "prune" {
 		target = atoi(args[1])
 	}
+	// the reference reads are taken before the operation; for every other operation they are taken
+	// through a separate tree object on the same store (tree walk only, it writes nothing), so that the
+	// writer's own caches are as cold as a restart left them when the operation begins
+	reader := s
+	concCount++
+	if concCount%2 == 0 {
+		obs := &session{cfg: s.cfg, backend: s.backend, rec: s.rec, exporters: map[string]*iavl.Exporter{}}
+		obs.tree = iavl.NewMutableTree(s.rec, 0, true, iavl.NewNopLogger())
+		if _, err := obs.tree.Load(); err == nil {
+			reader = obs
+			defer func() {
+				defer func() { recover() }()
+				obs.tree.Close()
+			}()
+		}
+	}
 	base := map[int64]map[string]string{}
 	for _, v := range avail {
 		if int64(v) <= target {
 			continue // a version the writer is deleting is not being read (property: "deleting other versions")
 		}
-		base[int64(v)] = s.readVersion(int64(v), keys)
+		base[int64(v)] = reader.readVersion(int64(v), keys)
 	}
 	at := make(chan string)
 	resume := make(chan struct{})
@@ -163,6 +180,28 @@ loop:
 			now := s.readVersion(v, keys)
 			if d := diffReads(b, now); d != "" && problem == "" {
 				problem = fmt.Sprintf("after the operation version %d %s", v, d)
+			}
+		}
+	}
+	// after the operation: in every version that exists now (the new one included) the index-backed
+	// lookup, the tree walk and the existence test agree for every key
+	if problem == "" && !strings.HasPrefix(res, "err") {
+		for _, v := range s.tree.AvailableVersions() {
+			now := s.readVersion(int64(v), keys)
+			for _, k := range keys {
+				g := strings.Fields(now["get "+enc(k)])
+				w := strings.Fields(now["gwi "+enc(k)])
+				h := strings.Fields(now["has "+enc(k)])
+				if len(g) < 2 || len(w) < 3 || len(h) < 2 {
+					continue
+				}
+				if g[0] != w[1] || (h[0] == "true") != (w[1] != "-") {
+					problem = fmt.Sprintf("after the operation version %d key %s: Get=%s GetWithIndex=%s Has=%s", v, enc(k), g[0], w[1], h[0])
+					break
+				}
+			}
+			if problem != "" {
+				break
 			}
 		}
 	}
